@@ -17,6 +17,7 @@ theorem convert_ok {r : RawFile} {p : Stark.Proof} (h : convert r = .ok p) :
   obtain ⟨cfg, h2, h⟩ := bind_eq_ok h
   obtain ⟨pi, h3, h⟩ := bind_eq_ok h
   obtain ⟨_, _, h⟩ := bind_eq_ok h
+  obtain ⟨_, _, h⟩ := bind_eq_ok h
   obtain ⟨items, h4, h⟩ := bind_eq_ok h
   obtain ⟨_, _, h⟩ := bind_eq_ok h
   obtain ⟨u, h5, h⟩ := bind_eq_ok h
@@ -25,18 +26,27 @@ theorem convert_ok {r : RawFile} {p : Stark.Proof} (h : convert r = .ok p) :
   exact ⟨consts, dyn, items, h1, h2, h3, h4, h5, h6⟩
 
 /-- a converted file's prover messages tile the proof (see `Loader.tiles`) -/
-theorem convert_tiles {r : RawFile} {p : Stark.Proof} (h : convert r = .ok p) : ∃ n, tiles r.annotations 0 = .ok n := by
+theorem convert_tiles {r : RawFile} {p : Stark.Proof} (h : convert r = .ok p) :
+    ∃ n, tiles r.annotations 0 = .ok n ∧ ∀ m, r.proofBytes = some m → n = m := by
   unfold convert at h
   obtain ⟨_, _, h⟩ := bind_eq_ok h
   obtain ⟨_, _, h⟩ := bind_eq_ok h
   obtain ⟨_, _, h⟩ := bind_eq_ok h
-  obtain ⟨n, ht, _⟩ := bind_eq_ok h
-  exact ⟨n, ht⟩
+  obtain ⟨n, ht, h⟩ := bind_eq_ok h
+  obtain ⟨_, hc, _⟩ := bind_eq_ok h
+  refine ⟨n, ht, fun m hm => ?_⟩
+  unfold coversProof at hc
+  rw [hm] at hc
+  dsimp only at hc
+  split at hc
+  · assumption
+  · cases hc
 
 /-- a converted file commits to exactly one root per inner FRI layer -/
 theorem convert_fri_commit_count {r : RawFile} {p : Stark.Proof} (h : convert r = .ok p) :
     ((r.annotations.filterMap item?).filter isFriCommit).length + 1 = r.friStepList.length := by
   unfold convert at h
+  obtain ⟨_, _, h⟩ := bind_eq_ok h
   obtain ⟨_, _, h⟩ := bind_eq_ok h
   obtain ⟨_, _, h⟩ := bind_eq_ok h
   obtain ⟨_, _, h⟩ := bind_eq_ok h
